@@ -208,6 +208,18 @@ def gen_plan(seed: int) -> Dict:
         ifaces.append(pred)
         if kind == "compose" and pred is not None:
             composed.append((len(ifaces) - 1, li, ri))
+        if kind in ("compose", "quotient", "merge") and pred is not None and li != ri and ri < len(pool) and rs.random() < 0.12:
+            # the partner is dropped and another contract with the SAME interface takes its place (a new object, quite possibly at
+            # the same address): the algebra must follow contents, not object identity
+            r_if = ifaces[ri]
+            newc = {"in": list(r_if["in"]), "out": list(r_if["out"]),
+                    "a": _gen_terms(rs, list(r_if["in"]), dom, rs.choice([0, 1, 2])),
+                    "g": _gen_terms(rs, list(r_if["in"]) + list(r_if["out"]), dom, rs.choice([1, 2, 3]), must=list(r_if["out"])), "simplify": False}
+            ops.append({"op": "swap", "idx": ri, "contract": newc, "l": ri, "r": ri})
+            ifaces.append(None)
+            again = dict(op)
+            ops.append(again)
+            ifaces.append(pred)
     friendliness = rs.choice([0.3, 0.5, 0.5, 0.7, 0.85, 1.0])
     ta = env.stream(seed, "adversary")
     tape: List[int] = []
@@ -311,6 +323,18 @@ def _execute(plan, sim, world, IoContract, Var, IncompatibleArgsError, stub, tra
     returned = 0
     for k, op in enumerate(plan["ops"]):
         kind = op["op"]
+        if kind == "swap":
+            sim.event("swap", op["idx"])
+            l = r = res = res2 = None  # no local may keep the old partner alive
+            if op["idx"] < len(pool):
+                pool[op["idx"]] = None  # drop the old partner first ...
+                try:
+                    pool[op["idx"]] = _build(stub, IoContract, Var, world, op["contract"])  # ... then build the new one in its place
+                except Exception as e:  # noqa: WPS429
+                    _classify(e, IncompatibleArgsError)
+            pool.append(None)
+            outcomes.append("swap:ok")
+            continue
         l = pool[op["l"]] if op["l"] < len(pool) else None
         r = pool[op["r"]] if op["r"] < len(pool) else None
         if l is None or r is None:
